@@ -327,6 +327,7 @@ func (s *Session) txnCommit(fr *Frame, recv Val, st *State, cc *ssa.CallCommon) 
 	rv := s.opaqueVal(loc.Typ, "txnresp")
 	s.assume(And(s.rangeFacts(rv), s.refFacts(st, rv)))
 	rv.L[leafIdx(loc.Typ, ".Succeeded")] = okAll
+	s.txnResponses(st, &rv, loc.Typ, h, okAll, has, val)
 	s.store(st, loc, rv)
 	resp := Ite(Eq(err, I(0)), loc.Ref, I(0))
 	// remember the transaction (for contracts that talk about the last commit)
@@ -351,39 +352,10 @@ func (s *Session) etcdGet(fr *Frame, args []Val, st *State, cc *ssa.CallCommon) 
 	if known && nopts == 0 {
 		has := Select(s.ghostGet(st, "etcdhas"), key)
 		val := Select(s.ghostGet(st, "etcdval"), key)
-		// Kvs: []*mvccpb.KeyValue
-		kvsLen := leafIdx(rt, ".Kvs#len")
-		kvsPtr := leafIdx(rt, ".Kvs#ptr")
-		kvsOff := leafIdx(rt, ".Kvs#off")
-		rv.L[kvsLen] = Ite(has, I(1), I(0))
-		rv.L[kvsOff] = I(0)
-		// element 0: fresh KeyValue whose Value is the bytes of the stored string
-		var kvT types.Type
-		for i := 0; i < rt.Underlying().(*types.Struct).NumFields(); i++ {
-			f := rt.Underlying().(*types.Struct).Field(i)
-			if f.Name() == "Kvs" {
-				kvT = f.Type().(*types.Slice).Elem()
-			}
-		}
-		kvLoc := s.alloc(st, kvT.(*types.Pointer).Elem())
-		kv := s.opaqueVal(kvLoc.Typ, "kv")
-		s.assume(And(s.rangeFacts(kv), s.refFacts(st, kv)))
-		bptr := s.newRef(st)
-		bname := heapName("A", "byte", "")
-		bh := s.heapGet(st, bname, arrSort(arrSort(SInt)))
-		content := s.uf("str2bytes", arrSort(SInt), val)
-		st.Heap[bname] = s.define("H", Store(bh, bptr, content))
-		s.assume(Eq(s.uf("bytes2str", SInt, content, I(0), s.strlen(val)), val))
-		kv.L[leafIdx(kvLoc.Typ, ".Value#ptr")] = bptr
-		kv.L[leafIdx(kvLoc.Typ, ".Value#off")] = I(0)
-		kv.L[leafIdx(kvLoc.Typ, ".Value#len")] = s.strlen(val)
-		kv.L[leafIdx(kvLoc.Typ, ".Key#ptr")] = s.newRef(st)
-		s.store(st, kvLoc, kv)
-		arrPtr := s.newRef(st)
-		aname := heapName("A", typeKey(kvT), "")
-		ah := s.heapGet(st, aname, arrSort(arrSort(SInt)))
-		st.Heap[aname] = s.define("H", Store(ah, arrPtr, Store(Select(ah, arrPtr), I(0), kvLoc.Ref)))
-		rv.L[kvsPtr] = arrPtr
+		arrPtr := s.mkKvs(st, rt, val)
+		rv.L[leafIdx(rt, ".Kvs#len")] = Ite(has, I(1), I(0))
+		rv.L[leafIdx(rt, ".Kvs#off")] = I(0)
+		rv.L[leafIdx(rt, ".Kvs#ptr")] = arrPtr
 		s.getKeys[loc.Ref.S] = key
 	} else {
 		s.note("etcd Get with options in %s: result list arbitrary", fr.fn.String())
@@ -394,3 +366,87 @@ func (s *Session) etcdGet(fr *Frame, args []Val, st *State, cc *ssa.CallCommon) 
 }
 
 var _ = strings.Contains
+
+// mkKvs allocates a one-element []*mvccpb.KeyValue whose Value holds the bytes of string handle val;
+// rt is a struct type with a field `Kvs []*mvccpb.KeyValue`. Returns the backing array reference.
+func (s *Session) mkKvs(st *State, rt types.Type, val T) T {
+	var kvT types.Type
+	stt := rt.Underlying().(*types.Struct)
+	for i := 0; i < stt.NumFields(); i++ {
+		if stt.Field(i).Name() == "Kvs" {
+			kvT = stt.Field(i).Type().(*types.Slice).Elem()
+		}
+	}
+	kvLoc := s.alloc(st, kvT.(*types.Pointer).Elem())
+	kv := s.opaqueVal(kvLoc.Typ, "kv")
+	s.assume(And(s.rangeFacts(kv), s.refFacts(st, kv)))
+	bptr := s.newRef(st)
+	bname := heapName("A", "byte", "")
+	bh := s.heapGet(st, bname, arrSort(arrSort(SInt)))
+	content := s.uf("str2bytes", arrSort(SInt), val)
+	st.Heap[bname] = s.define("H", Store(bh, bptr, content))
+	s.assume(Eq(s.uf("bytes2str", SInt, content, I(0), s.strlen(val)), val))
+	s.assume(Ge(s.strlen(val), I(0)))
+	kv.L[leafIdx(kvLoc.Typ, ".Value#ptr")] = bptr
+	kv.L[leafIdx(kvLoc.Typ, ".Value#off")] = I(0)
+	kv.L[leafIdx(kvLoc.Typ, ".Value#len")] = s.strlen(val)
+	kv.L[leafIdx(kvLoc.Typ, ".Key#ptr")] = s.newRef(st)
+	s.store(st, kvLoc, kv)
+	arrPtr := s.newRef(st)
+	aname := heapName("A", typeKey(kvT), "")
+	ah := s.heapGet(st, aname, arrSort(arrSort(SInt)))
+	st.Heap[aname] = s.define("H", Store(ah, arrPtr, Store(Select(ah, arrPtr), I(0), kvLoc.Ref)))
+	return arrPtr
+}
+
+// txnResponses models TxnResponse.Responses for the case PD uses: a failed comparison whose else branch
+// starts with a Get. Responses then has one entry per else-operation and entry 0 is the range response
+// for that key on the commit-time store.
+func (s *Session) txnResponses(st *State, rv *Val, respT types.Type, h T, okAll T, has, val T) {
+	defer func() {
+		if r := recover(); r != nil {
+			s.note("etcd model: TxnResponse.Responses left arbitrary (%v)", r)
+		}
+	}()
+	nelse := Select(s.txnCnt(st, "nelse"), h)
+	typ0 := Select(Select(s.txnArr(st, "else:a", SInt), h), I(0))
+	key0 := Select(Select(s.txnArr(st, "else:b", SInt), h), I(0))
+	isGet := And(Not(okAll), Ge(nelse, I(1)), Eq(typ0, I(1)))
+	pb := s.eng.typesPkg("go.etcd.io/etcd/etcdserver/etcdserverpb")
+	respOpT := pb.Scope().Lookup("ResponseOp").Type()
+	wrapT := pb.Scope().Lookup("ResponseOp_ResponseRange").Type()
+	rangeT := pb.Scope().Lookup("RangeResponse").Type()
+	// RangeResponse
+	rrLoc := s.alloc(st, rangeT)
+	rr := s.opaqueVal(rangeT, "rangeresp")
+	s.assume(And(s.rangeFacts(rr), s.refFacts(st, rr)))
+	present := Select(has, key0)
+	arrPtr := s.mkKvs(st, rangeT, Select(val, key0))
+	rr.L[leafIdx(rangeT, ".Kvs#len")] = Ite(present, I(1), I(0))
+	rr.L[leafIdx(rangeT, ".Kvs#off")] = I(0)
+	rr.L[leafIdx(rangeT, ".Kvs#ptr")] = arrPtr
+	s.store(st, rrLoc, rr)
+	// wrapper and oneof interface
+	wLoc := s.alloc(st, wrapT)
+	w := zeroVal(wrapT)
+	w.L[leafIdx(wrapT, ".ResponseRange")] = rrLoc.Ref
+	s.store(st, wLoc, w)
+	iface := s.makeInterface(st, scalar(types.NewPointer(wrapT), wLoc.Ref), types.NewPointer(wrapT), types.NewInterfaceType(nil, nil))
+	opLoc := s.alloc(st, respOpT)
+	op := s.opaqueVal(respOpT, "respop")
+	s.assume(And(s.rangeFacts(op), s.refFacts(st, op)))
+	op.L[leafIdx(respOpT, ".Response")] = iface.T0()
+	s.store(st, opLoc, op)
+	// Responses slice
+	elemT := types.NewPointer(respOpT)
+	sp := s.newRef(st)
+	aname := heapName("A", typeKey(elemT), "")
+	ah := s.heapGet(st, aname, arrSort(arrSort(SInt)))
+	st.Heap[aname] = s.define("H", Store(ah, sp, Store(Select(ah, sp), I(0), opLoc.Ref)))
+	li := leafIdx(respT, ".Responses#len")
+	pi := leafIdx(respT, ".Responses#ptr")
+	oi := leafIdx(respT, ".Responses#off")
+	rv.L[li] = Ite(isGet, nelse, rv.L[li])
+	rv.L[pi] = Ite(isGet, sp, rv.L[pi])
+	rv.L[oi] = Ite(isGet, I(0), rv.L[oi])
+}
